@@ -23,6 +23,7 @@ struct BlockInfo {
   uint8_t origin;   // 0 malloc, 1 realloc, 2 client
   int task;
   int arena;
+  uint64_t local;   // per-task sequence number (what the event log records: independent of interleaving)
 };
 
 struct OpWindow {
@@ -48,7 +49,8 @@ void sa_begin(const FaultSpec& f);   // open the op window of the current task
 OpWindow sa_end();                   // close it and return what happened
 OpWindow& sa_window();               // current task's window (open or not)
 
-uint64_t sa_live_count();
+uint64_t sa_live_count();          // all tasks
+uint64_t sa_live_count_mine();     // blocks obtained by the current task (== sa_live_count() outside W4)
 uint64_t sa_live_bytes();
 uint64_t sa_total_requests();        // library requests since reset (all tasks)
 const BlockInfo* sa_find(const void* p);           // live block with exactly this user pointer
